@@ -424,12 +424,22 @@ func (h *Header) SetExtension(id uint8, payload []byte) error { //nolint:gocogni
 	}
 
 	// No existing header extensions
+	if id < 1 {
+		return fmt.Errorf("%w actual(%d)", errRFC8285TwoByteHeaderIDRange, id)
+	}
+	if len(payload) > 255 {
+		return fmt.Errorf("%w actual(%d)", errRFC8285TwoByteHeaderSize, len(payload))
+	}
 	h.Extension = true
 
 	switch payloadLen := len(payload); {
 	case payloadLen <= 16:
 		h.ExtensionProfile = extensionProfileOneByte
 	case payloadLen > 16 && payloadLen < 256:
+		h.ExtensionProfile = extensionProfileTwoByte
+	}
+	if id > 14 || len(payload) == 0 {
+		// only the two-byte form can carry ids above 14 and empty values
 		h.ExtensionProfile = extensionProfileTwoByte
 	}
 
